@@ -1,3 +1,4 @@
 Require Import ExtrOcamlBasic.
-From Eupsv Require Import Base.Base Model.PathAlg Model.Setup.
-Extraction "model.ml" keep_types setup request find_setup_product setup_string.
+From Eupsv Require Import Base.Base Model.PathAlg Model.Setup Model.SetupWf.
+Extraction "model.ml" keep_types setup request find_setup_product setup_string
+  wf2_check wf2_fields dl_of rank_of.
